@@ -23,7 +23,7 @@ import (
 	"github.com/itchyny/gojq"
 )
 
-func main() { Register("c03", runC03); Register("sync", runSync); Main() }
+func main() { Register("c03", runC03); Register("sync", runSync); Register("replay", runReplay); Main() }
 
 // ---------------------------------------------------------------------------------------------
 // universe
@@ -87,8 +87,89 @@ func universe() []uval {
 	add(true, obj(), obj("a", 1), obj("a", 1, "b", 2), obj("a", obj("b", 1)), obj("a", obj("c", 2)), obj("start", 1, "end", 2), obj("a", nil))
 	add(false, obj("b", arr(1)), obj("a", arr(1, 2)), obj("start", nil, "end", 1.5), obj("start", 1), obj("start", "x", "end", 1), obj("a", obj("b", obj("c", 1))),
 		obj("a", "x", "b", nil), obj("b", arr(0, obj("c", 1))), obj("a", lit("1.0")), obj("é", 1, "a", 2), obj("start", -1, "end", nil), obj("start", 0, "end", lit("1.5")),
-		obj("a", obj("b", 1), "c", 3), obj("start", 1, "end", 1), obj("a", arr("a")))
+		obj("a", obj("b", 1), "c", 3), obj("start", 1, "end", 1), obj("a", arr("a")),
+		obj("a", obj("b", obj("x", 1, "y", 2), "c", 2), "z", 0))
+	add(true, obj("a", obj("b", 1, "c", 2)), obj("a", obj("c", 3, "d", obj("e", 1)), "b", nil))
 	return u
+}
+
+// random larger values: nested containers over a small key alphabet (so that merges, contains, paths and
+// differences overlap), numbers in every representation, strings with multi-byte and invalid bytes
+func randVal(r *Rng, depth int) any {
+	k := r.Intn(12)
+	if depth <= 0 && k >= 8 {
+		k = r.Intn(8)
+	}
+	switch k {
+	case 0:
+		return nil
+	case 1:
+		return r.Intn(2) == 0
+	case 2:
+		return []any{0, 1, -1, 2, 3, 7, 100, -5, math.MaxInt64, math.MinInt64}[r.Intn(10)]
+	case 3:
+		return []any{0.5, -1.5, 2.0, 1e17, 3.25, -0.0, 1e-9, 123456.789}[r.Intn(8)]
+	case 4:
+		return []any{lit("1"), lit("2.5"), lit("1e3"), lit("-7"), lit("12345678901234567890"), lit("0.25"), lit("3.0")}[r.Intn(7)]
+	case 5:
+		return []any{big.NewInt(2), bigs("18446744073709551616"), bigs("-9223372036854775809"), big.NewInt(-1)}[r.Intn(4)]
+	case 6, 7:
+		return []string{"", "a", "b", "ab", "abc", "ba", "a,b", "é", "x\xffy", " a ", "A", "c"}[r.Intn(12)]
+	case 8, 9:
+		n := r.Intn(4)
+		xs := make([]any, n)
+		for i := range xs {
+			xs[i] = randVal(r, depth-1)
+		}
+		return xs
+	default:
+		n := r.Intn(4)
+		m := map[string]any{}
+		for i := 0; i < n; i++ {
+			m[[]string{"a", "b", "c", "d"}[r.Intn(4)]] = randVal(r, depth-1)
+		}
+		return m
+	}
+}
+
+// mutate returns a value of the same shape as v with some leaves / entries changed
+func mutate(r *Rng, v any) any {
+	switch x := v.(type) {
+	case []any:
+		w := make([]any, 0, len(x)+1)
+		for _, e := range x {
+			switch r.Intn(4) {
+			case 0:
+				w = append(w, mutate(r, e))
+			case 1:
+			default:
+				w = append(w, deepCopy(e))
+			}
+		}
+		if r.Intn(3) == 0 {
+			w = append(w, randVal(r, 1))
+		}
+		return w
+	case map[string]any:
+		w := map[string]any{}
+		for k, e := range x {
+			switch r.Intn(4) {
+			case 0, 1:
+				w[k] = mutate(r, e)
+			case 2:
+			default:
+				w[k] = deepCopy(e)
+			}
+		}
+		if r.Intn(2) == 0 {
+			w[[]string{"a", "b", "c", "d"}[r.Intn(4)]] = randVal(r, 2)
+		}
+		return w
+	}
+	if r.Intn(2) == 0 {
+		return randVal(r, 1)
+	}
+	return v
 }
 
 // ---------------------------------------------------------------------------------------------
@@ -497,9 +578,36 @@ func hugeOrder(v any) bool {
 	return false
 }
 
+// "abc" * 1114112 succeeds with megabytes (up to 2 GiB) of output: left out (the size limit itself is
+// covered by the cases just above it, which are errors)
+func hugeRepeat(sv, nv any) bool {
+	s, ok := sv.(string)
+	if !ok || len(s) == 0 {
+		return false
+	}
+	if n, ok := nv.(json.Number); ok {
+		nv = gojq.VerifParseNumber(n)
+	}
+	var f float64
+	switch x := nv.(type) {
+	case int:
+		f = float64(x)
+	case float64:
+		f = x
+	case *big.Int:
+		f, _ = new(big.Float).SetInt(x).Float64()
+	default:
+		return false
+	}
+	return f > 2000 && f*float64(len(s)) < math.MaxInt32
+}
+
 func (r *runner) call(n *native, in any, args []any) {
 	c := r.c
 	if (n.name == "jn" || n.name == "yn") && len(args) > 0 && hugeOrder(args[0]) {
+		return
+	}
+	if n.name == "_multiply" && (hugeRepeat(args[0], args[1]) || hugeRepeat(args[1], args[0])) {
 		return
 	}
 	inS := SexpVal(in)
@@ -516,7 +624,7 @@ func (r *runner) call(n *native, in any, args []any) {
 	if p != nil {
 		r.panics++
 		if r.panics <= 10 {
-			c.Violation("panic: %s %s)", caseText, out)
+			c.Violation("panic: %s) :: %s", caseText, out)
 		}
 		return
 	}
@@ -524,14 +632,14 @@ func (r *runner) call(n *native, in any, args []any) {
 	if SexpVal(in) != inS {
 		r.mutated++
 		if r.mutated <= 10 {
-			c.Violation("input-modified: %s %s) input is now %s", caseText, out, SexpVal(in))
+			c.Violation("input-modified: %s) :: result %s, input is now %s", caseText, out, SexpVal(in))
 		}
 	}
 	for i, a := range args {
 		if SexpVal(a) != argS[i] {
 			r.mutated++
 			if r.mutated <= 10 {
-				c.Violation("argument-modified: %s %s) argument %d is now %s", caseText, out, i, SexpVal(a))
+				c.Violation("argument-modified: %s) :: result %s, argument %d is now %s", caseText, out, i, SexpVal(a))
 			}
 		}
 	}
@@ -555,7 +663,7 @@ func (r *runner) call(n *native, in any, args []any) {
 		if o2 != out && !(strings.Contains(out, "(f ") && canonEqualText(o2, out)) {
 			r.pathDif++
 			if r.pathDif <= 10 {
-				c.Violation("compiled-path-differs: %s %s) but `%s` gives %s", caseText, out, querySrc(n.name, n.arity), o2)
+				c.Violation("compiled-path-differs: %s) :: direct call %s but `%s` gives %s", caseText, out, querySrc(n.name, n.arity), o2)
 			}
 		}
 	}
@@ -592,7 +700,7 @@ func (r *runner) call(n *native, in any, args []any) {
 				for i, a := range args2 {
 					a2[i] = SexpVal(a)
 				}
-				c.Violation("representation-dependent: %s %s) but (call %s %s (%s)) gives %s", caseText, out,
+				c.Violation("representation-dependent: %s) :: gives %s but (call %s %s (%s)) gives %s", caseText, out,
 					n.name, SexpVal(in2), strings.Join(a2, " "), outcome(gojq.VerifCallNative(n.name, in2, args2)))
 			}
 		}
@@ -674,6 +782,36 @@ func runC03(c *Ctx) {
 				continue
 			}
 			n := &native{name: name, arity: arity, iter: fn.Iter, code: compileFor(name, arity)}
+			if name != "_range" && name != "_slice" { // random larger values (seeded)
+				nr := 150
+				if arity == 2 {
+					nr = 400
+				}
+				if thorough {
+					nr = 3000
+				}
+				for i := 0; i < nr; i++ {
+					args := make([]any, arity)
+					for j := range args {
+						args[j] = randVal(rng, 3)
+					}
+					var in any
+					if arity < 2 || name == "setpath" {
+						in = randVal(rng, 3)
+					}
+					if i%3 == 0 && arity >= 1 { // related operands: same shape drawn twice, or the same value
+						if a, ok := in.(map[string]any); ok && arity == 1 {
+							args[0] = randVal(rng, 3)
+							_ = a
+						} else if arity == 2 && i%2 == 0 {
+							args[1] = deepCopy(args[0])
+						} else if arity == 2 {
+							args[1] = mutate(rng, args[0])
+						}
+					}
+					r.call(n, in, args)
+				}
+			}
 			isOp := strings.HasPrefix(name, "_") && arity == 2 && name != "_group_by"
 			switch arity {
 			case 0:
@@ -817,4 +955,174 @@ func runSync(c *Ctx) {
 		}
 	}
 	c.Stats["definitions"] = n
+}
+
+// ---------------------------------------------------------------------------------------------
+// replay: run the cases given as arguments, each "(call NAME IN (ARG...))" (an outcome, if present,
+// is ignored), with every implementation-only oracle, and emit the lines for the model.
+
+type sx struct {
+	atom string
+	list []*sx
+	isL  bool
+}
+
+func parseSx(s string) (*sx, error) {
+	var stack [][]*sx
+	cur := []*sx{}
+	i := 0
+	for i < len(s) {
+		ch := s[i]
+		switch {
+		case ch == ' ' || ch == '\t' || ch == '\n':
+			i++
+		case ch == '(':
+			stack = append(stack, cur)
+			cur = []*sx{}
+			i++
+		case ch == ')':
+			if len(stack) == 0 {
+				return nil, fmt.Errorf("unbalanced )")
+			}
+			l := &sx{list: cur, isL: true}
+			cur = append(stack[len(stack)-1], l)
+			stack = stack[:len(stack)-1]
+			i++
+		default:
+			j := i
+			for j < len(s) && !strings.ContainsRune(" \t\n()", rune(s[j])) {
+				j++
+			}
+			cur = append(cur, &sx{atom: s[i:j]})
+			i = j
+		}
+	}
+	if len(stack) != 0 || len(cur) != 1 {
+		return nil, fmt.Errorf("malformed s-expression")
+	}
+	return cur[0], nil
+}
+
+func unhex(s string) ([]byte, error) {
+	if s == "-" {
+		return nil, nil
+	}
+	b := make([]byte, len(s)/2)
+	_, err := fmt.Sscanf(s, "%x", &b)
+	return b, err
+}
+
+func valOfSx(e *sx) (any, error) {
+	if !e.isL {
+		switch e.atom {
+		case "null":
+			return nil, nil
+		case "true":
+			return true, nil
+		case "false":
+			return false, nil
+		}
+		return nil, fmt.Errorf("bad atom %q", e.atom)
+	}
+	if len(e.list) == 0 || e.list[0].isL {
+		return nil, fmt.Errorf("bad value")
+	}
+	tag, rest := e.list[0].atom, e.list[1:]
+	switch tag {
+	case "a":
+		xs := make([]any, len(rest))
+		for i, r := range rest {
+			v, err := valOfSx(r)
+			if err != nil {
+				return nil, err
+			}
+			xs[i] = v
+		}
+		return xs, nil
+	case "o":
+		m := map[string]any{}
+		for _, r := range rest {
+			if !r.isL || len(r.list) != 2 || r.list[0].isL {
+				return nil, fmt.Errorf("bad object entry")
+			}
+			k, err := unhex(r.list[0].atom)
+			if err != nil {
+				return nil, err
+			}
+			v, err := valOfSx(r.list[1])
+			if err != nil {
+				return nil, err
+			}
+			m[string(k)] = v
+		}
+		return m, nil
+	}
+	if len(rest) != 1 || rest[0].isL {
+		return nil, fmt.Errorf("bad scalar")
+	}
+	a := rest[0].atom
+	switch tag {
+	case "i":
+		var x int
+		_, err := fmt.Sscanf(a, "%d", &x)
+		return x, err
+	case "b":
+		x, ok := new(big.Int).SetString(a, 10)
+		if !ok {
+			return nil, fmt.Errorf("bad big")
+		}
+		return x, nil
+	case "f":
+		var x uint64
+		_, err := fmt.Sscanf(a, "%d", &x)
+		return math.Float64frombits(x), err
+	case "l":
+		b, err := unhex(a)
+		return json.Number(string(b)), err
+	case "s":
+		b, err := unhex(a)
+		return string(b), err
+	}
+	return nil, fmt.Errorf("bad tag %q", tag)
+}
+
+func runReplay(c *Ctx) {
+	tab := gojq.VerifNatives()
+	r := &runner{c: c}
+	for _, text := range c.Args {
+		// "kind: (call ...)" -> "(call ...)"
+		if i := strings.Index(text, "(call "); i > 0 {
+			text = text[i:]
+		}
+		e, err := parseSx(text)
+		if err != nil || !e.isL || len(e.list) < 4 || e.list[0].atom != "call" || !e.list[3].isL {
+			c.Violation("replay: cannot parse case %q: %v", text, err)
+			continue
+		}
+		name := e.list[1].atom
+		fn, ok := tab[name]
+		if !ok {
+			c.Violation("replay: no native %q", name)
+			continue
+		}
+		in, err := valOfSx(e.list[2])
+		if err != nil {
+			c.Violation("replay: %v", err)
+			continue
+		}
+		args := make([]any, len(e.list[3].list))
+		bad := false
+		for i, a := range e.list[3].list {
+			if args[i], err = valOfSx(a); err != nil {
+				bad = true
+			}
+		}
+		if bad || fn.Argcount&(1<<len(args)) == 0 {
+			c.Violation("replay: bad arguments for %s", name)
+			continue
+		}
+		n := &native{name: name, arity: len(args), iter: fn.Iter, code: compileFor(name, len(args))}
+		r.call(n, in, args)
+	}
+	c.Stats["calls"] = r.calls
 }
